@@ -64,11 +64,11 @@ def loopAssign (lv : String) (item : S.V) (vars : Env S.V) :
   else
     (Env.set vars lv item, [(lv, Env.get? vars lv)])
 
-/-- restore after one iteration: a previous value of `None` (or absence) means "delete" -/
+/-- restore after one iteration: the previous value comes back; a name that did not exist is deleted -/
 def loopRestore (origs : List (String × Option S.V)) (vars : Env S.V) : Env S.V :=
   origs.foldl (fun e (kv : String × Option S.V) =>
     match kv.2 with
-    | some v => if S.isNone v then Env.erase e kv.1 else Env.set e kv.1 v
+    | some v => Env.set e kv.1 v
     | none => Env.erase e kv.1) vars
 
 /-- the `for item in collection` part of `_render_loop`, given the body renderer and the renderer of
